@@ -201,6 +201,81 @@ def fmt_family(res, wd, quick, rng):
     return len(events), len(events) - st["dropped"] - len(rejects)
 
 
+MC_ST = os.path.join(ROOT, "spec/mc/MC_StylesheetText.tla")
+TRACE_ST = os.path.join(ROOT, "spec/trace/Trace_C01st.tla")
+
+
+def stylesheet_text_family(res, wd, quick):
+    """XSLT 3.4 for the stylesheet itself: every content sequence up to 4 (thorough: 5) items over {text, white space, a comment, a
+    processing instruction, an element, xsl:text} as the content of a literal result element, with and without xml:space="preserve"
+    (enumerated by TLC in MC_StylesheetText, which checks the laws of StylesheetTree.tla); StylesheetTree!ResultChildren is the oracle."""
+    maxlen = 4 if quick else 5
+    cfg = os.path.join(wd, "sttext.cfg")
+    open(cfg, "w").write("SPECIFICATION Spec\nCONSTANT MaxLen = %d\nINVARIANT Canonical\nINVARIANT ElementsKept\nINVARIANT CommentMatters\n" % maxlen)
+    dump = os.path.join(wd, "sttext")
+    r = vlib.tlc(MC_ST, cfg, workers=1, name="c01st", timeout=3000, extra=["-noGenerateSpecTE", "-dump", dump])
+    if not r["ok"]:
+        raise vlib.Infra("MC_StylesheetText failed:\n" + r["out"][-3000:])
+    res.add_mc(r, "MC_StylesheetText (laws of StylesheetTree on every content sequence of length <= %d; the sequences are the conformance cases)" % maxlen)
+    raws = sorted((st["raw"] for st in tlaparse.read_dump(dump + ".dump", only={"raw"})), key=lambda x: json.dumps(x, sort_keys=True))
+    combos = [(raw, pres) for raw in raws for pres in (False, True)]
+
+    def item(x):
+        if x["k"] == "t": return escape("".join(map(chr, x["s"])))
+        if x["k"] == "xt": return "<xsl:text>%s</xsl:text>" % escape("".join(map(chr, x["s"])))
+        return {"c": "<!-- c -->", "pi": "<?p d?>", "e": "<e/>"}[x["k"]]
+    sdir = os.path.join(wd, "sttext.d"); os.makedirs(sdir)
+    open(os.path.join(sdir, "in.xml"), "w").write("<r/>")
+    chunks = [combos[i:i + 50] for i in range(0, len(combos), 50)]
+    cases = []
+    for k, ch in enumerate(chunks):
+        body = "".join("<c%s>%s</c>" % (' xml:space="preserve"' if pres else "", "".join(item(x) for x in raw)) for raw, pres in ch)
+        open(os.path.join(sdir, "s%d.xsl" % k), "w").write('<xsl:stylesheet version="1.0" xmlns:xsl="http://www.w3.org/1999/XSL/Transform"><xsl:template match="/"><o>%s</o></xsl:template></xsl:stylesheet>' % body)
+        cases.append({"id": k, "dir": sdir, "xsl": "s%d.xsl" % k, "trace": "none", "select": False})
+    exe = vlib.build_harness("xslt")
+    cp_ = os.path.join(sdir, "cases.ndjson"); vlib.write_ndjson(cp_, cases)
+    out = subprocess.run([exe, cp_], capture_output=True, text=True, timeout=1200)
+    dones = {}
+    for line in out.stdout.splitlines():
+        try:
+            ev = json.loads(line)
+        except ValueError:
+            continue
+        if ev.get("e") == "Done":
+            dones[ev["id"]] = ev
+    events = []
+    for k, ch in enumerate(chunks):
+        dn = dones.get(k)
+        if dn is None or dn["status"] != 0:
+            res.violation("stylesheet-text family: transformation %s (rc=%s): %s" % ("failed: " + dn["msg"][:150] if dn else "died", out.returncode, out.stderr[-200:]),
+                          [{"xsl": open(os.path.join(sdir, "s%d.xsl" % k)).read()}]); continue
+        o = [x for x in dn["tree"] if x["k"] == "elem" and x["qn"] == "o"][0]
+        cs = [x for x in o["c"] if x["k"] == "elem"]
+        for (raw, pres), c in zip(ch, cs):
+            got = []
+            for y in c["c"]:
+                if y["k"] == "text":
+                    if got and got[-1]["k"] == "text":
+                        got[-1]["s"] += xdm.cps(y["v"])
+                    elif y["v"]:
+                        got.append({"k": "text", "s": xdm.cps(y["v"])})
+                elif y["k"] == "elem":
+                    got.append({"k": "elem"})
+                else:
+                    got.append({"k": y["k"]})
+            events.append({"e": "StText", "raw": raw, "preserve": pres, "got": got, "family": "sttext",
+                           "text": "<c%s>%s</c>" % (' xml:space="preserve"' if pres else "", "".join(item(x) for x in raw))})
+    rejects, st = vlib.tlc_validate_sharded(TRACE_ST, events, tag="c01st", stateless=True, timeout=3000)
+    known = {k["key"]: k for k in vlib.known_findings(PROP)}
+    for rj in rejects:
+        ev = events[rj["line"]]
+        if rj["msg"].startswith("KNOWN stylesheetCommentDoesNotSplitText") and "stylesheetCommentDoesNotSplitText" in known:
+            res.known(known["stylesheetCommentDoesNotSplitText"]); continue
+        res.violation("stylesheet content %s: %s" % (ev["text"], rj["msg"][:300]), [ev])
+    res.notes["stylesheet_text_cases"] = len(events)
+    return len(events), len(events) - len(rejects)
+
+
 TRACE_VS = os.path.join(ROOT, "spec/trace/Trace_C01vs.tla")
 MC_VS = os.path.join(ROOT, "spec/mc/MC_VariablesStack.tla")
 
@@ -397,6 +472,8 @@ def run(res, tier, seed):
             res.violation("status %s %s | %s" % (ev["status"], ev["msg"][:100], rj["msg"][:300]),
                           [dict(ev, xsl=all_xsl(cdir), xml=open(os.path.join(cdir, "in.xml")).read(), flatdoc=flats[ev["doc"] - 1], flataux=[flats[a - 1] for a in ev["aux"]])])
     nvs, nvs_ok = vstack_validate(res, vs_execs, cases, wd, quick)
+    nst, nst_ok = stylesheet_text_family(res, wd, quick)
+    nvs, nvs_ok = nvs + nst, nvs_ok + nst_ok
     navt, navt_ok = avt_family(res, wd, quick)
     nfmt, nfmt_ok = fmt_family(res, wd, quick, rng)
     nns, nns_ok = nsnodes_family(res, wd, quick, rng)
@@ -435,6 +512,11 @@ def classify(ev):
 def replay(path):
     events = vlib.read_ndjson(path)
     fam = events[0].get("family") if events else None
+    if fam == "sttext":
+        rejects, _ = vlib.tlc_validate_sharded(TRACE_ST, events, shards=1, tag="c01replay3", stateless=True)
+        for r in rejects:
+            print("REJECTED: %s" % r["msg"][:2000])
+        return 1 if rejects else 0
     if fam in ("vstack", "nsnodes"):
         evs = [{k: v for k, v in ev.items() if k not in ("family", "xsl", "xml")} for ev in events if ev.get("e") != "Sample"]
         rejects, _ = vlib.tlc_validate_sharded(TRACE_VS if fam == "vstack" else TRACE_NS, evs, shards=1, tag="c01replay2", stateless=(fam == "nsnodes"))
